@@ -67,6 +67,14 @@ func genC06(t *simrt.Tape, tier string) interface{} {
 		p.Role = "server"
 		p.Script = []Step{{Op: "auto"}, {Op: "auto"}, {Op: "auto", Choice: 1}}
 		p.EndMode = 0
+		if t.Draw(3) == 0 {
+			// ... or at the instant the peer ends it and keeps the connection open for a while: a
+			// client whose write is stuck behind a small window, others queued behind it
+			p.Role = "client"
+			p.SScript = []SStep{{Op: "auto", To: 3}, {Op: "auto", To: 3}, {Op: "auto", To: 3}, {Op: "auto", To: 3}}
+			p.EndMode = 1
+			p.Conf.Transport = "tcp"
+		}
 		p.EndAtMs = []int{1, 2, 5, 30}[t.Draw(4)]
 		p.Senders = 2 + t.Draw(2)
 		p.Attempts = 6 + t.Draw(20)
@@ -79,6 +87,9 @@ func genC06(t *simrt.Tape, tier string) interface{} {
 			p.Faults = NoFaults()
 			p.Faults.Capacity = []int{16, 64, 512}[t.Draw(3)]
 			p.Faults.Stalls = []StallS{{AfterBytes: int64(300 + t.Draw(1500)), ForMs: []int{3, 40, 700}[t.Draw(3)]}}
+			if p.Role == "client" {
+				p.Faults.Stalls[0].ForMs = []int{40, 700, 3000}[t.Draw(3)]
+			}
 		}
 	}
 	return p
@@ -246,6 +257,15 @@ func runC06(w *World, pi interface{}) {
 		}()
 	}
 	w.Armed = true
+	// when the endpoint itself first reports that its session is over
+	var endSeenAt time.Duration = -1
+	w.AfterEachStep(func() {
+		if endSeenAt < 0 && chState != nil {
+			if st := chState(); st == "finished" || st == "failed" {
+				endSeenAt = simrt.Now()
+			}
+		}
+	})
 	// application senders, from before the handshake until after the end
 	var obs []sendObs
 	var done []*Flag
@@ -371,6 +391,32 @@ func runC06(w *World, pi interface{}) {
 		}
 		if termSeq >= 0 && e.Seq > termSeq {
 			w.Violate("C06.data-after-terminal-session-envelope", sig(p.Role), "data envelope %s was written after the endpoint's own terminal session envelope\n%s", fstr(e.Frame, "id"), h.Dump(50))
+		}
+	}
+	// wire truth: no data envelope is handed to the connection at a later instant than the one at
+	// which the endpoint itself reported the end of its session (a send that found the session
+	// established writes at once: simulated time cannot pass between its check and its write call)
+	if peer != nil && peer.Link != nil && endSeenAt >= 0 {
+		dir := peer.Link.BA
+		if p.Role == "client" {
+			dir = peer.Link.AB
+		}
+		tap := dir.Tap()
+		writes, _ := dir.IOLog()
+		for _, o := range obs {
+			k := strings.Index(string(tap), `"id":"`+o.id+`"`)
+			if k < 0 {
+				continue
+			}
+			for _, io := range writes {
+				if io.Off <= int64(k) && int64(k) < io.Off+int64(io.N) {
+					// (the instant the write call was entered: a full send buffer takes the bytes later)
+					if io.CallAt > endSeenAt {
+						w.Violate("C06.emitted-after-observed-end", sig(p.Role), "envelope %s (send returned %v) was handed to the connection at %v, after the channel itself had reported the end of its session at %v\n%s", o.id, o.err, io.CallAt, endSeenAt, h.Dump(50))
+					}
+					break
+				}
+			}
 		}
 	}
 	// receive direction (server role): a data envelope injected into the handshake aborts it and is never delivered
